@@ -215,6 +215,23 @@ def cases():
     out.append(Case("HRNP/payloads", "sum", 16, (80, 96), hrnp_any, lambda o: bytes_to_bits(o.as_bytes()),
                     lambda b: HRNP.from_bytes(b.tobytes()), lambda o: o.checksum_correct))
 
+    def hrnp_long(r):
+        """packets longer than 256 octets (long text messages): lengths that need both octets of the length field and are not
+        small integers"""
+        from harness.drivers import c12
+        bs = c12.builders()
+        for _ in range(2000):
+            pdu = bs[r.randrange(len(bs))][2](r)
+            if 245 <= len(pdu.as_bytes()) <= 640:
+                break
+        else:
+            raise core.MachineryError("no long HDAP message could be built")
+        return HRNP(data=pdu, opcode=HRNPOpcodes.DATA, source=r.randrange(0x20, 0x30), destination=0x10,
+                    packet_number=r.randrange(1 << 16), block_number=r.randrange(256))
+
+    out.append(Case("HRNP/long", "sum", 16, (80, 96), hrnp_long, lambda o: bytes_to_bits(o.as_bytes()),
+                    lambda b: HRNP.from_bytes(b.tobytes()), lambda o: o.checksum_correct))
+
     def hrnp_control(r):
         """the payload-less packets of the connection handshake (the length field is the constant 12)"""
         return HRNP(opcode=r.choice([o for o in HRNPOpcodes if o != HRNPOpcodes.DATA]), source=r.randrange(0x20, 0x30), destination=0x10,
